@@ -71,9 +71,20 @@ MapCases == {[fam |-> "map", x |-> m, e |-> e] : m \in Maps,
 \* abs on ints
 NumCases == {[fam |-> "num", x |-> VI(n), e |-> e] : n \in {-12, -1, 0, 1, 7}, e \in {F("abs", X), F("abs", F("abs", X))}}
 
-AllCases == StrCases \cup RevCases \cup IdemCases \cup ListCases \cup LoopCases \cup SliceCases \cup DefaultCases \cup MapCases \cup NumCases
+\* exact decimals: multiples of 1/8 (exactly representable in binary), printed directly
+Eighths == {VD(k * 125, 3) : k \in -20..20}
+RoundArgs == {<<>>, <<LI(0)>>, <<LI(1)>>, <<LI(2)>>, <<LI(1), LS(<<102, 108, 111, 111, 114>>)>>, <<LI(1), LS(<<99, 101, 105, 108>>)>>,
+              <<LI(0), LS(<<102, 108, 111, 111, 114>>)>>, <<LI(0), LS(<<99, 101, 105, 108>>)>>, <<LI(2), LS(<<99, 111, 109, 109, 111, 110>>)>>}
+DecCases == {[fam |-> "dec", x |-> d, e |-> FA("round", X, a)] : d \in Eighths, a \in RoundArgs}
+            \cup {[fam |-> "dec", x |-> d, e |-> F("abs", X)] : d \in Eighths}
+            \cup {[fam |-> "dec", x |-> d, e |-> FA("round", F("abs", X), <<LI(1)>>)] : d \in Eighths}
+            \cup {[fam |-> "dec", x |-> VI(n), e |-> FA("round", X, <<LI(p)>>)] : n \in {-25, -15, -4, 0, 5, 14, 15, 25, 149, 150}, p \in {-1, -2, 0, 1}}
+\* several list arguments at once
+MultiMerge == {[fam |-> "list", x |-> VL(l), e |-> FA("merge", X, <<Arr(<<LI(7), LI(8)>>), Arr(<<LI(6)>>)>>)] : l \in IntLists(MaxList)}
+              \cup {[fam |-> "list", x |-> VL(l), e |-> FA("merge", X, <<X, Arr(<<>>), Arr(<<LI(6)>>)>>)] : l \in IntLists(MaxList)}
+AllCases == DecCases \cup MultiMerge \cup StrCases \cup RevCases \cup IdemCases \cup ListCases \cup LoopCases \cup SliceCases \cup DefaultCases \cup MapCases \cup NumCases
 
-Prog(c) == IF c.fam = "loopcount" THEN CountLoop ELSE Obs(c.e)
+Prog(c) == IF c.fam = "loopcount" THEN CountLoop ELSE IF c.fam = "dec" THEN <<PrintS(c.e)>> ELSE Obs(c.e)
 Ctx(c) == IF c.fam = "default" /\ c.e.e.k = "var" /\ c.e.e.n = "undefinedvar" THEN EmptyFn ELSE ("x" :> c.x)
 Ref(c) == Render(MkW(("main" :> Prog(c)), {}, {}, NoFault), "main", Ctx(c))
 
@@ -96,7 +107,7 @@ CaseOf(c) ==
      runs |-> {[label |-> c.fam, tp |-> ("main" :> Source(Prog(c), LMin)), xcalls |-> [id \in {} |-> 0]]},
      expect |-> [ok |-> ref.ok, out |-> ref.out, err |-> ref.err, calls |-> [id \in {} |-> 0]]]
 
-Fams == {"str", "idem", "list", "loopcount", "slice", "default", "map", "num"}
+Fams == {"str", "idem", "list", "loopcount", "slice", "default", "map", "num", "dec"}
 Init == cs \in {[part |-> f] : f \in Fams}
 Next == "part" \in DOMAIN cs /\ cs' \in {c \in AllCases : c.fam = cs.part /\ Ref(c).err # "frag"}
 Spec == Init /\ [][Next]_cs
